@@ -234,6 +234,7 @@ def p_c04(run):
     import whole as W
     q = run.tier == "quick"
     whole_tie(run, ("native", "w32") if q else ("native", "w32", "neutral", "neutral32"), W.parts_tweak("128", q) + W.parts_tweak("64", q))
+    whole_tie(run, ("native",) if q else ("native", "w32", "noua"), W.kctr_parts(q, "tweak"))
     run_scripts(run, G.gen_c04(run.rng, run.tier), std_variants(run, cfgs))
 def p_c05(run):
     cfgs = ("native",) if run.tier == "quick" else ("native", "w32", "noua", "w32noua")
@@ -341,6 +342,8 @@ def p_c10(run):
     whole_tie(run, ("native", "w32") if q else ("native", "w32", "neutral", "neutral32"),
               [p_ for p_ in W.key_parts("128", q) + W.key_parts("64", q) if "_st_" not in p_] +
               [p_ for p_ in (W.QUICK_MKEY if q else W.MKEY_PARTS) if "setkey" in p_])
+    # the same key lengths through the key-setting functions of the CTR back ends (WholeCtrKey.v)
+    whole_tie(run, ("native",) if q else ("native", "w32", "noua"), W.kctr_parts(q, "key"))
     run_scripts(run, G.gen_c10(run.rng, run.tier), vs)
 
 def p_c13(run):
